@@ -5317,7 +5317,12 @@ class DfaCompileCtx:
 
             # An append which runs out of space hands the current character to its handler without consuming it. Moved onto a
             # transition that consumes, it would hand over a character that has already been matched.
-            if not transition.is_fallthrough and any(isinstance(y, (AppendTo, AppendCharTo)) for x in to_replace.actions for y in x.all_subactions()):
+            def appends(action):
+                # (a break also runs the actions which follow its loop)
+                return isinstance(action, (AppendTo, AppendCharTo)) or any(appends(y) for y in action.all_subactions() if y is not action) \
+                        or (isinstance(action, BreakAction) and any(appends(y) for y in action.replacement_actions()))
+
+            if not transition.is_fallthrough and any(appends(x) for x in to_replace.actions):
                 continue
 
             # Nothing on a transition runs after an action which returns to the caller (a yield): the parser resumes in the target
